@@ -84,6 +84,7 @@ type concT struct {
 	ReqChunk bool   `json:"req_chunked"`
 	RespBody int    `json:"resp_body"`
 	RespChnk bool   `json:"resp_chunked"`
+	RespEOF  bool   `json:"resp_close_delimited"`
 	LowerTok bool   `json:"lower_tokens"` // Connection tokens spelled in lower case
 	Field    string `json:"field,omitempty"`
 }
@@ -239,6 +240,7 @@ func concretise(c *rcase, rnd *rand.Rand) {
 	if c.Resp.Body != 0 {
 		cc.RespBody = bodySizes[rnd.Intn(len(bodySizes))]
 		cc.RespChnk = rnd.Intn(2) == 0
+		cc.RespEOF = rnd.Intn(5) == 0
 	}
 	cc.LowerTok = rnd.Intn(2) == 0
 	c.Conc = cc
@@ -325,7 +327,7 @@ func (w *world) run(c *rcase, fresh bool, cs conns) (*observation, *site, error)
 	// the backend's scripted response
 	respBody := bodyOf(cc.RespBody, 3)
 	lines := append(headerLines(c.Resp.Hdr), connLines(c.Resp.Conn, cc.LowerTok)...)
-	w.be.arm(id, &script{raw: rawResponse(c.Resp.Status, lines, respBody, cc.RespChnk, c.Resp.Trailers), closeConn: hasToken(c.Resp.Conn, "close"), failFirst: c.Conf.Retry})
+	w.be.arm(id, &script{raw: rawResponse(c.Resp.Status, lines, respBody, cc.RespChnk, c.Resp.Trailers, cc.RespEOF), closeConn: hasToken(c.Resp.Conn, "close") || (cc.RespEOF && c.Resp.Status != 204 && c.Resp.Trailers == "none"), failFirst: c.Conf.Retry})
 
 	// the client's raw request
 	reqBody := bodyOf(cc.ReqBody, 7)
@@ -382,7 +384,7 @@ func (w *world) run(c *rcase, fresh bool, cs conns) (*observation, *site, error)
 		// the server may have closed the idle connection: once more on a new one
 		rc.Close()
 		delete(cs, st.addr)
-		w.be.arm(id, &script{raw: rawResponse(c.Resp.Status, lines, respBody, cc.RespChnk, c.Resp.Trailers), closeConn: hasToken(c.Resp.Conn, "close"), failFirst: c.Conf.Retry})
+		w.be.arm(id, &script{raw: rawResponse(c.Resp.Status, lines, respBody, cc.RespChnk, c.Resp.Trailers, cc.RespEOF), closeConn: hasToken(c.Resp.Conn, "close") || (cc.RespEOF && c.Resp.Status != 204 && c.Resp.Trailers == "none"), failFirst: c.Conf.Retry})
 		if rc, err = hx.DialRaw(st.addr); err != nil {
 			return nil, st, err
 		}
